@@ -187,6 +187,26 @@ theorem C06_container_refines {κ ρ ν : Type} [BEq κ] [LawfulBEq κ] (kind : 
       (absStore parse (run kind parse st ops).1, (run kind parse st ops).2) :=
   run_refines kind parse ops st
 
+/-- **Containers with an encoded key** (`BinaryCIFBlock`: stored key = `"_" + name`, iteration removes
+exactly that one prefix).  If decoding undoes encoding, every history on the store with encoded
+keys refines the plain mapping over the *user's* keys: iteration yields exactly the names that
+were set, each of them contained and retrievable — for every name, including names with leading,
+inner, trailing or doubled underscores. -/
+theorem C06_container_refines_prefixed {κ κ' ρ ν : Type} [BEq κ] [LawfulBEq κ] [BEq κ'] [LawfulBEq κ']
+    (enc : κ → κ') (dec : κ' → κ) (hdec : ∀ k, dec (enc k) = k) (kind : Kind) (parse : ρ → Option ν)
+    (st : Store κ' ρ ν) (hst : Img enc st) (ops : List (Op κ ρ ν)) :
+    specRun kind parse (absP dec parse st) ops =
+      (absP dec parse (runP enc dec kind parse st ops).1, (runP enc dec kind parse st ops).2) :=
+  runP_refines enc dec hdec kind parse ops st hst
+
+/-- The instance the code has after the `fix:` commit: `removeprefix("_")` undoes `"_" + name` for
+every name (`lstrip("_")`, and the seeded `strip("_")`, do not: see the examples below). -/
+theorem C06_binary_block_refines {ρ ν : Type} (kind : Kind) (parse : ρ → Option ν)
+    (st : Store Str ρ ν) (hst : Img encU st) (ops : List (Op Str ρ ν)) :
+    specRun kind parse (absP decU parse st) ops =
+      (absP decU parse (runP encU decU kind parse st ops).1, (runP encU decU kind parse st ops).2) :=
+  runP_refines encU decU (fun _ => rfl) kind parse ops st hst
+
 /-- `get` after lazy parsing returns `parse raw`, and the element is cached. -/
 theorem C06_get_parses {κ ρ ν : Type} [BEq κ] [LawfulBEq κ] (kind : Kind) (parse : ρ → Option ν)
     (st : Store κ ρ ν) (k : κ) (r : ρ) (v : ν) (h : lookup k st = some (.raw r)) (hp : parse r = some v) :
@@ -308,6 +328,12 @@ example : KeptLine ['i', 't', q1, 's', ' ', q2, '#', '2'] := by
   refine ⟨⟨⟨'i', _, rfl, by decide⟩, ⟨['i', 't', q1, 's', ' ', q2, '#'], '2', rfl, by decide⟩⟩,
     by decide, by decide, by decide⟩
 example : readTokens (escape (str "a\nb c\n$x")) = .ok [str "a\nb c\n$x"] := by decide
+example : decU (encU (str "_p")) = str "_p" ∧ decU (encU (str "t_")) = str "t_" := by decide
+-- `lstrip("_")` (before the fix) and `strip("_")` (seeded change C06-3) are not inverse to the prefixing:
+example : (encU (str "_p")).dropWhile (· == '_') ≠ str "_p" := by decide
+example : (runP (ρ := Nat) (ν := Nat) encU decU ⟨false, true⟩ (fun r => some r) []
+    [.set (str "t_") 1, .set (str "_p") 2, .iter, .has (str "t_"), .get (str "_p")]).2 =
+    [.unit, .unit, .keys [str "t_", str "_p"], .bool true, .val 2] := by decide
 example : (rcRun (κ := Nat) false ⟨[(0, 2)], none⟩ [.ser, .set 0 3, .ser, .count]).2 =
     [.ok (some 2), .ok none, .ok (some 3), .ok (some 3)] := by decide
 example : NameOk (str "atom_site") := by unfold NameOk; decide
